@@ -1741,4 +1741,52 @@ def cohB (cfg : Cfg) (t : Table) : Option Lohis → Bool
   | some l => (match t.calcLohis cfg with | .ok l' => decide (l' = l) | .error _ => false)
 
 
+/-! ## Phase 5: `sorted()` as a comparison sort
+
+`sorted()` never looks at its members except through `<`.  `sortE` is a stable insertion sort that asks the
+RAISING comparison `pyLt` (a `TypeError` of any comparison it makes aborts the sort, as in CPython).
+`Lemmas`: `sortE` with `pyLt` equals `pySorted` / `pySortedBy` for EVERY list (`Missing` included), so the
+"TypeError iff two non-Missing members are incomparable" reading of `sorted()` is a theorem about a comparison sort,
+not an assumption. -/
+
+def insertE {α} (lt : α → α → Except Err Bool) (x : α) : List α → Except Err (List α)
+  | [] => .ok [x]
+  | y :: ys =>
+    match lt y x with
+    | .error e => .error e
+    | .ok true => (match insertE lt x ys with | .error e => .error e | .ok r => .ok (y :: r))
+    | .ok false => .ok (x :: y :: ys)
+
+def sortE {α} (lt : α → α → Except Err Bool) : List α → Except Err (List α)
+  | [] => .ok []
+  | x :: xs => match sortE lt xs with | .error e => .error e | .ok s => insertE lt x s
+
+def pySortedE (vs : List Cell) : Except Err (List Cell) := sortE pyLt vs
+def pySortedByE (k : Nat → Cell) (xs : List Nat) : Except Err (List Nat) := sortE (fun i j => pyLt (k i) (k j)) xs
+
+/-! ## Phase 5: what a `Table` / `View` shows besides `list(table)`: `to_dicts`, `__len__`, column access -/
+
+/-- `to_dicts()`: `map(dict, map(zip, repeat(columns), zip(*map(self._data.__getitem__, columns))))` -/
+def Table.toDicts (t : Table) : Except Err (List (List (Nat × Cell))) :=
+  match t.rows with
+  | .error e => .error e
+  | .ok R => .ok (R.map (fun r => t.columns.zip r))
+
+/-- which class `t[c]` is: 0 the stored `list`, 1 `SliceView`, 2 `ListView` -/
+def Sel.kind : Sel → Nat
+  | .all => 0 | .slice _ _ => 1 | .list _ => 2
+
+/-- what can be seen of `t[c]`: its class, `len`, `list(...)`, `[0]` and `[-1]` -/
+structure ColObs where
+  kind : Nat
+  len : Nat
+  items : Except Err (List Cell)
+  first : Except Err Cell
+  last : Except Err Cell
+
+def Table.colObs (t : Table) (c : Nat) : Except Err ColObs :=
+  match t.col c with
+  | .error e => .error e
+  | .ok s => .ok { kind := s.sel.kind, len := s.len, items := s.toList, first := s.get 0, last := s.getLast }
+
 end Coba.C17
